@@ -33,6 +33,9 @@ static int g_saved1 = -1; static FILE* g_cap = nullptr;
 void vx_io_begin(void) { fflush(stdout); g_saved1 = dup(1); g_cap = tmpfile(); dup2(fileno(g_cap), 1); }
 long vx_io_end(void) { fflush(stdout); long n = (long)lseek(1, 0, SEEK_CUR); dup2(g_saved1, 1); close(g_saved1); return n; }
 long vx_io_written(void* f) { fflush((FILE*)f); return (long)lseek(fileno((FILE*)f), 0, SEEK_END); }
+/* number text chosen by a harness: natively the value is the number the text denotes and the rendering is the real one */
+void vx_set_numtext(void*, long) {}
+double vx_num_of_text(void* s) { return strtod((const char*)s, nullptr); }
 long vx_io_text(void* f, void* buf, long n) { fflush((FILE*)f); return (long)pread(fileno((FILE*)f), buf, (size_t)n, 0); }
 }
 int main() { setvbuf(stdout, 0, _IONBF, 0); VX_ENTRY(); printf("VX-DONE\n"); fflush(stdout); _Exit(0); /* harness statics are not torn down (CBMC does not either) */ }
